@@ -631,9 +631,9 @@ def build(spec, env):
             rec.append(['table', data])
         return [DF.printer(num_rows=spec.get('num_rows', 10), resources=res, header_print=hp, table_print=tp)]
     if s == 'dump_to_path':
-        return [DF.dump_to_path(spec['out'], format=spec.get('format', 'csv'))]
+        return [DF.dump_to_path(spec['out'], format=spec.get('format', 'csv'), **(spec.get('options') or {}))]
     if s == 'dump_to_zip':
-        return [DF.dump_to_zip(spec['out'], format=spec.get('format', 'csv'))]
+        return [DF.dump_to_zip(spec['out'], format=spec.get('format', 'csv'), **(spec.get('options') or {}))]
     if s == 'stream':
         return [DF.stream(spec['out'])]
     if s == 'checkpoint':
